@@ -457,6 +457,10 @@ def analyze(scenario, log):
             if op in ("pacq", "ppre") and a[0] < len(pool_exp):
                 if val == 0:
                     pool_exp[a[0]][pid] += a[1]          # success: exactly n more
+                    if pid not in pool_exp_unknown[a[0]] and pool_exp[a[0]][pid] > objs["pool"][a[0]]:
+                        bad("C07", "pool %d: %s of %d units by process %d returned SUCCESS at t=%d although the process then holds %d "
+                            "units by its own successful acquisitions and releases, more than the capacity %d"
+                            % (a[0], op, a[1], pid, t, pool_exp[a[0]][pid], objs["pool"][a[0]]))
                 # any other signal: holds exactly what it held before the call (unchanged) ...
                 if val == -1 and t in ppre_times[a[0]]:
                     # ... unless it was itself mugged by a preempting pool acquisition in this instant: then it holds nothing
